@@ -1056,7 +1056,7 @@ theorem newColor_ok (p : Prototype) (hv : validatePrototype p = true) : ∃ cl, 
   | true =>
     unfold validatePrototype at hv
     simp only [Bool.and_eq_true] at hv
-    obtain ⟨⟨⟨⟨⟨⟨_, hcol⟩, _⟩, _⟩, _⟩, _⟩, _⟩ := hv
+    obtain ⟨⟨⟨⟨⟨⟨⟨_, hcol⟩, _⟩, _⟩, _⟩, _⟩, _⟩, _⟩ := hv
     unfold validateColor at hcol
     simp only [Bool.and_eq_true] at hcol
     have h1 := hcol.1
@@ -1785,30 +1785,33 @@ theorem get_of_mem_nodup : ∀ (p : Prototype) (r : Record), NoDupNames p → r 
       rw [hne]
       exact get_of_mem_nodup as r hn.2 h
 
-/-- `validate_prototype` checks the type of the first record of a name only; without duplicate
-    names that is every record -/
-theorem idxInt_of_nodup (p : Prototype) (hv : validatePrototype p = true) (hn : NoDupNames p) :
-    IdxInt p := by
+/-- `validate_prototype` requires the integer type of every row/column/return index record
+    (since the fix "a rejected point could change the bounds": of every record with such a name,
+    not only the first) -/
+theorem idxInt_of_valid (p : Prototype) (hv : validatePrototype p = true) : IdxInt p := by
   intro r hr hname
-  have hg := get_of_mem_nodup p r hn hr
   unfold validatePrototype at hv
   simp only [Bool.and_eq_true] at hv
-  obtain ⟨⟨⟨⟨⟨_, hret⟩, hrow⟩, hcol⟩, _⟩, _⟩ := hv
+  obtain ⟨⟨⟨⟨⟨⟨_, hret⟩, hrow⟩, hcol⟩, _⟩, _⟩, _⟩ := hv
   rcases hname with h | h | h
-  · rw [h] at hg; rw [hg] at hrow; exact hrow
-  · rw [h] at hg; rw [hg] at hcol; exact hcol
-  · rw [h] at hg
-    unfold validateReturn at hret
+  · have := List.all_eq_true.mp hrow r hr
+    simpa [h] using this
+  · have := List.all_eq_true.mp hcol r hr
+    simpa [h] using this
+  · unfold validateReturn at hret
     simp only [Bool.and_eq_true] at hret
-    have := hret.1.2
-    rw [hg] at this; exact this
+    have := List.all_eq_true.mp hret.1.2 r hr
+    simpa [h] using this
+
+theorem idxInt_of_nodup (p : Prototype) (hv : validatePrototype p = true) (_hn : NoDupNames p) :
+    IdxInt p := idxInt_of_valid p hv
 
 theorem freshPc_ready (p : Prototype) (cl : Option ColorLimits) (hv : validatePrototype p = true)
     (hi : IdxInt p) : ProtoReady (freshPc p cl) p := by
   have hv' := hv
   unfold validatePrototype at hv'
   simp only [Bool.and_eq_true] at hv'
-  obtain ⟨⟨⟨⟨⟨⟨⟨⟨hc, hs⟩, _⟩, _⟩, _⟩, _⟩, _⟩, _⟩, _⟩ := hv'
+  obtain ⟨⟨⟨⟨⟨⟨⟨⟨⟨hc, hs⟩, _⟩, _⟩, _⟩, _⟩, _⟩, _⟩, _⟩, _⟩ := hv'
   have hc' := validateCartesian_has p hc
   have hs' := validateSpherical_has p hs
   intro r hr
@@ -2061,9 +2064,12 @@ theorem rowMax_is_maximum (p : Prototype) (pts : List (List Value)) (pc : PointC
     pc.rowMax = some m ↔ m ∈ ivals .rowIndex p pts ∧ ∀ v ∈ ivals .rowIndex p pts, v ≤ m := by
   rw [h.rowMax]; exact foldMax_int _ hne m
 
-/-! ### finding: duplicate record names defeat `validate_prototype` -/
+/-! ### duplicate record names no longer defeat `validate_prototype`
 
-/-- the full statement "an accepted point of a valid prototype never fails in the bound update" … -/
+Before the fix "a rejected point could change the bounds" the statement below was FALSE (witness:
+a second `rowIndex` record of scaled-integer type; every `add_point` then failed in the bound
+update, after the Cartesian bounds had been changed).  It is a theorem now. -/
+
 def updateAllBounds_no_err_statement : Prop :=
   ∀ (p : Prototype) (pt : List Value) (cl : Option ColorLimits), validatePrototype p = true →
     checkValues p pt = true → pt.length = p.length → ∃ pc', updateAllBounds p pt (freshPc p cl) = .ok pc'
@@ -2072,16 +2078,8 @@ def dupProto : Prototype :=
   [⟨.cartesianX, .double none none⟩, ⟨.cartesianY, .double none none⟩, ⟨.cartesianZ, .double none none⟩,
    ⟨.rowIndex, .integer 0 10⟩, ⟨.rowIndex, .scaled 0 10 0 0⟩]
 
-def dupPoint : List Value := [.double 0, .double 0, .double 0, .integer 1, .scaled 1]
-
-/-- … is false: the rules look at the first `rowIndex` record only; a second one with a non-integer
-    type makes every `add_point` fail with "to_i64 failed" -/
-theorem updateAllBounds_no_err_statement_false : ¬ updateAllBounds_no_err_statement := by
-  intro h
-  obtain ⟨pc', e⟩ := h dupProto dupPoint none (by decide) (by decide) rfl
-  have : updateAllBounds dupProto dupPoint (freshPc dupProto none) = .err "to_i64 failed" := by
-    decide
-  rw [this] at e; cases e
+/-- the former witness is rejected by the prototype rules -/
+theorem dupProto_rejected : validatePrototype dupProto = false := by decide
 
 /-- **A3 (no error), partial**: with the bounds structures present for the prototype (`ProtoReady`,
     established by `new` for valid prototypes whose index records all have integer type, in
@@ -2099,6 +2097,13 @@ theorem new_protoReady (pw : PW) (exts : List (String × String)) (guid : String
   obtain ⟨_, hv, _, _, cl, _, rfl⟩ := PcW.new_ok pw exts guid proto pw0 w0 hnew
   exact freshPc_ready proto cl hv (idxInt_of_nodup proto hv hn)
 
+
+/-- **A3 (no error)**: an accepted point of a valid prototype never fails in the bound update -/
+theorem updateAllBounds_no_err : updateAllBounds_no_err_statement := by
+  intro p pt cl hv hc _
+  obtain ⟨pc', e, _⟩ := updateAllBounds_no_err_partial p pt (freshPc p cl) hc
+    (freshPc_ready p cl hv (idxInt_of_valid p hv))
+  exact ⟨pc', e⟩
 
 /-! ## packet capacity (stretch): with `maxPoints` from `get_max_packet_points` a packet never
     exceeds 65535 bytes, so "Invalid data packet length detected" cannot happen -/
